@@ -267,9 +267,24 @@ def selectVHost (vhs : List VirtualHost) (authority : String) : Option VirtualHo
       | some p => some p.1
       | none => (ds.find? (fun p => p.2 == "*")).map (·.1)
 
-/-- Whole route-configuration evaluation. -/
-def evalRouteConfig (re : Regex) (vhs : List VirtualHost) (req : Request) : Decision :=
-  match selectVHost vhs req.authority with
+/-- `host:port` / `[v6]:port` without its port (`ignore_port_in_host_matching`: "the port is stripped
+    from the host/authority before matching"). -/
+def stripPort (a : String) : String :=
+  let l := a.toList
+  let digits := l.reverse.takeWhile Char.isDigit
+  match l.reverse.drop digits.length with
+  | ':' :: rest =>
+    if digits.isEmpty then a
+    else if rest.contains ':' && rest.head? != some ']' then a      -- a bare IPv6 literal, not host:port
+    else String.ofList rest.reverse
+  | _ => a
+
+def hostForMatching (ignorePort : Bool) (a : String) : String := if ignorePort then stripPort a else a
+
+/-- Whole route-configuration evaluation: virtual host by authority (port ignored when the route
+    configuration says so), `require_tls`, then first matching route. -/
+def evalRouteConfig (re : Regex) (ignorePort : Bool) (vhs : List VirtualHost) (req : Request) : Decision :=
+  match selectVHost vhs (hostForMatching ignorePort req.authority) with
   | some v => if v.requireTls && req.scheme == "http" then .tlsRedirect else evalRoutes re v.routes req
   | none => .notFound
 
